@@ -37,6 +37,11 @@ ASSUMPTIONS = {
     "Term.rename_variable contract (proved in S for PolyhedralTerm)": "Term.rename_variable is faithful substitution (proved for PolyhedralTerm by PolyhedralTerm.rename_variable, domain S)",
 }
 
+# Obligations of other contracts that a property's argument relies on (counted for it as well).
+# The algebra layer de-duplicates and subtracts terms with Term.__eq__: it must be exact equality.
+TERM_EQ = [("PolyhedralTerm.__eq__", "C19.eq.iff_same_coefficients_and_constant")]
+EXTRA_CLAUSES = {"C08": TERM_EQ, "C07": TERM_EQ, "C15": TERM_EQ, "C01": TERM_EQ, "C02": TERM_EQ}
+
 HOOK_COMMITS = []
 NOT_CLAIMED = {}
 
@@ -104,10 +109,10 @@ PLAN = {
         "explanation": _U_EXPL + "List order is abstracted (the property speaks about sets and duplicate-freeness).",
     },
     "C08": {
-        "level": "proof",
-        "level_text": _PROOF_TEXT,
-        "level_note": _U_NOTE + "; additionally a bounded monitor exercises the polyhedral instance (not part of the proof claim)",
-        "domains": "U",
+        "level": "other",
+        "level_text": "merge is proved exact at the algebra layer with no bound (domain U); the hypothesis that term equality is exact is discharged for PolyhedralTerm in domain S (bounded variable names), which makes the overall label bounded-shape; plus a bounded monitor of the polyhedral instance",
+        "level_note": _U_NOTE + "; PolyhedralTerm.__eq__ exactness proved for terms over {x,y,z} only; additionally a bounded monitor exercises the polyhedral instance",
+        "domains": "US",
         "technique": _VC + " (domain U, unbounded); plus bounded monitor of the polyhedral instance",
         "monitor": "m_algebra",
         "explanation": _U_EXPL + "merge is proved exact for any constraint domain whose simplify meets P-simplify; the polyhedral simplify contract is C07.",
